@@ -619,16 +619,27 @@ Definition all_finite (l : list N) : bool := forallb is_finite l.
 Definition has_nan (l : list N) : bool := existsb is_nan l.
 Definition q4_list (q : quat) : list N := let '(a, b, c, d) := q in [a; b; c; d].
 
-(* FULL statement one would like (totality on finite input):
-     forall axis angle, all finite -> no component of from_axis_angle axis angle is NaN.
-   It is FALSE of the faithful model: the degenerate-axis guard tests len_sq (which overflows to +inf
-   and passes), det_sqrt_f32 clamps +inf to 0.0, and 1.0 / 0.0 = inf poisons the components. *)
-Lemma from_axis_angle_nan_witness :
+(* Regression reference: quat.rs BEFORE the overflow repair (q_from_axis_angle_v0).  Totality on finite input was
+   FALSE of it: the degenerate-axis guard tested len_sq (which overflows to +inf and passes), det_sqrt_f32 clamps
+   +inf to 0.0, and 1.0 / 0.0 = inf poisoned the components.  The repaired definition maps the same witness to
+   the quaternion of the unit axis. *)
+Lemma from_axis_angle_v0_nan_witness :
   exists ax ay az angle,
     all_finite [ax; ay; az; angle] = true /\
-    has_nan (q4_list (q_from_axis_angle flocq_prims (ax, ay, az) angle)) = true /\
-    is_inf (v_dot flocq_prims (ax, ay, az) (ax, ay, az)) = true.
+    has_nan (q4_list (q_from_axis_angle_v0 flocq_prims (ax, ay, az) angle)) = true /\
+    is_inf (v_dot flocq_prims (ax, ay, az) (ax, ay, az)) = true /\
+    q_from_axis_angle flocq_prims (ax, ay, az) angle = q_from_axis_angle flocq_prims (ONE, 0, 0) angle /\
+    all_finite (q4_list (q_from_axis_angle flocq_prims (ax, ay, az) angle)) = true.
 Proof. exists 0x60ad78ec, 0, 0, ONE. vm_compute. repeat split; reflexivity. Qed.
+
+(* The repair leaves every input whose squared length is not +-inf on the old path, for ANY float primitives. *)
+Lemma from_axis_angle_unchanged_l : forall P axis angle,
+  is_inf (v_dot P axis axis) = false ->
+  q_from_axis_angle P axis angle = q_from_axis_angle_v0 P axis angle.
+Proof.
+  intros P axis angle H. unfold q_from_axis_angle, q_from_axis_angle_v0, q_rescale. rewrite H. reflexivity.
+Qed.
+
 
 (* ------------------------------------------------------------------ Part G: range of the interpolation (Flocq reals) *)
 Open Scope N_scope.
@@ -1159,3 +1170,598 @@ Proof.
 Qed.
 
 Close Scope Z_scope.
+
+(* ------------------------------------------------------------------ Part I: Quat::from_axis_angle is total *)
+Open Scope N_scope.
+
+(* ---- decoding a 32-bit pattern: sign / exponent field / mantissa field *)
+Definition ff_shape (s : bool) (m e : Z) : full_float :=
+  if Zeq_bool e 0 then
+    match m with Z0 => F754_zero s | Zpos p => F754_finite s p (-149) | Zneg _ => F754_nan false xH end
+  else if Zeq_bool e 255 then
+    match m with Z0 => F754_infinity s | Zpos p => F754_nan s p | Zneg _ => F754_nan false xH end
+  else
+    match (m + 8388608)%Z with Zpos p => F754_finite s p (e + -149 - 1) | _ => F754_nan false xH end.
+
+Lemma b32_shape : forall v,
+  R32 (b32 v) = FF2R radix2 (ff_shape (Zle_bool 2147483648 (Z.of_N v)) (Z.of_N v mod 8388608) ((Z.of_N v / 8388608) mod 256)) /\
+  fin32 (b32 v) = is_finite_FF (ff_shape (Zle_bool 2147483648 (Z.of_N v)) (Z.of_N v mod 8388608) ((Z.of_N v / 8388608) mod 256)).
+Proof.
+  intro v. unfold b32, b32_of_bits, binary_float_of_bits.
+  rewrite B2R_FF2B, is_finite_FF2B. split; reflexivity.
+Qed.
+
+Lemma ff_shape_neg : forall s m e, (0 <= m)%Z ->
+  FF2R radix2 (ff_shape (negb s) m e) = (- FF2R radix2 (ff_shape s m e))%R /\
+  is_finite_FF (ff_shape (negb s) m e) = is_finite_FF (ff_shape s m e).
+Proof.
+  intros s m e Hm. unfold ff_shape.
+  destruct (Zeq_bool e 0); [|destruct (Zeq_bool e 255)].
+  - destruct m as [|p|p]; cbn [FF2R is_finite_FF]; split; try reflexivity; try lra.
+    destruct s; cbn [negb cond_Zopp]; rewrite <- F2R_Zopp; reflexivity.
+  - destruct m as [|p|p]; cbn [FF2R is_finite_FF]; split; try reflexivity; lra.
+  - destruct (m + 8388608)%Z as [|p|p]; cbn [FF2R is_finite_FF]; split; try reflexivity; try lra.
+    destruct s; cbn [negb cond_Zopp]; rewrite <- F2R_Zopp; reflexivity.
+Qed.
+
+Lemma ff_shape_pos : forall m e, (0 <= FF2R radix2 (ff_shape false m e))%R.
+Proof.
+  intros m e. unfold ff_shape.
+  destruct (Zeq_bool e 0); [|destruct (Zeq_bool e 255)].
+  - destruct m; cbn [FF2R cond_Zopp]; try lra. apply F2R_ge_0. simpl. lia.
+  - destruct m; cbn [FF2R]; lra.
+  - destruct (m + 8388608)%Z; cbn [FF2R cond_Zopp]; try lra. apply F2R_ge_0. simpl. lia.
+Qed.
+
+Lemma fin32_bits : forall v, v < TWO32 -> fin32 (b32 v) = is_finite v.
+Proof.
+  intros v Hv. destruct (b32_shape v) as [_ H]. rewrite H. clear H.
+  unfold is_finite, expo, TWO23, TWO32 in *.
+  set (e := ((Z.of_N v / 8388608) mod 256)%Z).
+  assert (He : (0 <= e < 256)%Z) by (unfold e; lia).
+  assert (Ee : (v / 8388608) mod 256 = Z.to_N e) by (unfold e; lia).
+  rewrite Ee. set (m := (Z.of_N v mod 8388608)%Z). assert (Hm : (0 <= m < 8388608)%Z) by (unfold m; lia).
+  unfold ff_shape.
+  destruct (Zeq_bool e 0) eqn:E0.
+  - apply Zeq_bool_eq in E0. rewrite E0. destruct m; try reflexivity. lia.
+  - destruct (Zeq_bool e 255) eqn:E1.
+    + apply Zeq_bool_eq in E1. rewrite E1. destruct m; reflexivity.
+    + apply Zeq_bool_neq in E1. destruct (N.eqb_spec (Z.to_N e) 255) as [E|E]; [lia|].
+      destruct (m + 8388608)%Z eqn:Em; try lia. reflexivity.
+Qed.
+
+Lemma fields_shift : forall x k : Z,
+  ((x + k * 2147483648) mod 8388608 = x mod 8388608 /\
+   ((x + k * 2147483648) / 8388608) mod 256 = (x / 8388608) mod 256)%Z.
+Proof.
+  intros x k. replace (x + k * 2147483648)%Z with (x + (k * 256) * 8388608)%Z by ring. split.
+  - apply Z_mod_plus_full.
+  - rewrite Z_div_plus_full by discriminate. apply Z_mod_plus_full.
+Qed.
+
+Lemma fneg_Z : forall v, v < TWO32 ->
+  (Z.of_N (fneg v) = Z.of_N v + (if (TWO31 <=? v)%N then -1 else 1) * 2147483648)%Z.
+Proof. intros v Hv. unfold fneg, TWO31, TWO32 in *. split_bools; lia. Qed.
+
+Lemma R32_fneg : forall v, v < TWO32 -> R32 (b32 (fneg v)) = (- R32 (b32 v))%R.
+Proof.
+  intros v Hv. destruct (b32_shape v) as [H _]. destruct (b32_shape (fneg v)) as [H' _].
+  rewrite H, H'. clear H H'.
+  pose proof (fneg_Z v Hv) as Hz.
+  destruct (fields_shift (Z.of_N v) (if (TWO31 <=? v)%N then -1 else 1)) as [Hm He].
+  rewrite <- Hz in Hm, He.
+  assert (Hs : Zle_bool 2147483648 (Z.of_N (fneg v)) = negb (Zle_bool 2147483648 (Z.of_N v))).
+  { unfold TWO31 in Hz. unfold TWO32 in Hv. rewrite Hz. destruct (N.leb_spec 2147483648 v) as [A|A].
+    - replace (Zle_bool 2147483648 (Z.of_N v)) with true by (symmetry; apply Z.leb_le; lia).
+      apply Z.leb_gt. lia.
+    - replace (Zle_bool 2147483648 (Z.of_N v)) with false by (symmetry; apply Z.leb_gt; lia).
+      apply Z.leb_le. lia. }
+  rewrite Hm, He, Hs. apply ff_shape_neg. lia.
+Qed.
+
+Lemma R32_fabs : forall v, v < TWO32 -> R32 (b32 (fabs v)) = Rabs (R32 (b32 v)).
+Proof.
+  intros v Hv. destruct (sign_of v) eqn:S.
+  - assert (E : fabs v = fneg v) by (revert S; unfold fabs, fneg, sign_of; split_bools; intros; try discriminate; reflexivity).
+    rewrite E, R32_fneg by exact Hv.
+    assert (Hp : (0 <= R32 (b32 (fneg v)))%R).
+    { destruct (b32_shape (fneg v)) as [H _]. rewrite H.
+      assert (Hs : Zle_bool 2147483648 (Z.of_N (fneg v)) = false).
+      { apply Z.leb_gt. revert S Hv. unfold fneg, sign_of, TWO31, TWO32. split_bools; intros; try discriminate; lia. }
+      rewrite Hs. apply ff_shape_pos. }
+    rewrite R32_fneg in Hp by exact Hv. rewrite Rabs_left1 by lra. reflexivity.
+  - assert (E : fabs v = v) by (revert S; unfold fabs, sign_of; split_bools; intros; try discriminate; reflexivity).
+    rewrite E. destruct (b32_shape v) as [H _].
+    assert (Hs : Zle_bool 2147483648 (Z.of_N v) = false).
+    { apply Z.leb_gt. revert S. unfold sign_of, TWO31. split_bools; intros; try discriminate; lia. }
+    rewrite Hs in H. rewrite Rabs_pos_eq; [reflexivity|]. rewrite H. apply ff_shape_pos.
+Qed.
+
+(* ---- finite results carry the rounded real value; bounded operands give bounded finite results *)
+Lemma overflow_not_finite : forall (r : binary32) s,
+  B2FF 24 128 r = Binary.binary_overflow 24 128 mode_NE s -> fin32 r = false.
+Proof.
+  intros r s H. rewrite <- is_finite_B2FF, H. reflexivity.
+Qed.
+
+Lemma mult_fin_R : forall x y : binary32, fin32 (b32_mult mode_NE x y) = true ->
+  R32 (b32_mult mode_NE x y) = rnd32 (R32 x * R32 y).
+Proof.
+  intros x y F. unfold b32_mult in *.
+  match goal with |- context [Bmult 24 128 ?h1 ?h2 _ _ _ _] =>
+    pose proof (Bmult_correct 24 128 h1 h2 binop_nan_pl32 mode_NE x y) as H end.
+  change (SpecFloat.fexp 24 128) with fexp32 in H.
+  destruct (Rlt_bool _ _); [apply H|].
+  apply overflow_not_finite in H. rewrite H in F. discriminate.
+Qed.
+
+Lemma plus_fin_R : forall x y : binary32, fin32 x = true -> fin32 y = true ->
+  fin32 (b32_plus mode_NE x y) = true -> R32 (b32_plus mode_NE x y) = rnd32 (R32 x + R32 y).
+Proof.
+  intros x y Fx Fy F. unfold b32_plus in *.
+  match goal with |- context [Bplus 24 128 ?h1 ?h2 _ _ _ _] =>
+    pose proof (Bplus_correct 24 128 h1 h2 binop_nan_pl32 mode_NE x y Fx Fy) as H end.
+  change (SpecFloat.fexp 24 128) with fexp32 in H.
+  destruct (Rlt_bool _ _); [apply H|].
+  destruct H as [H _]. apply overflow_not_finite in H. rewrite H in F. discriminate.
+Qed.
+
+Lemma plus_fin_inv : forall x y : binary32, fin32 (b32_plus mode_NE x y) = true -> fin32 x = true /\ fin32 y = true.
+Proof.
+  intros x y. destruct x as [s|s|s pl e|s m e He]; destruct y as [s'|s'|s' pl' e'|s' m' e' He'];
+    try (intros _; split; reflexivity); try (destruct s, s'; intro H; discriminate H); intro H; discriminate H.
+Qed.
+
+Lemma bpow_lt_emax : forall k x, (k <= 127)%Z -> (Rabs x <= bpow radix2 k)%R ->
+  Rlt_bool (Rabs x) (bpow radix2 128) = true.
+Proof.
+  intros k x Hk H. apply Rlt_bool_true. apply Rle_lt_trans with (1 := H). apply bpow_lt. lia.
+Qed.
+
+Lemma rnd32_abs_le : forall k x, (-149 <= k)%Z -> (Rabs x <= bpow radix2 k)%R -> (Rabs (rnd32 x) <= bpow radix2 k)%R.
+Proof.
+  intros k x Hk H. apply abs_round_le_generic; [apply FLT_exp_valid; exact Hp24 | apply valid_rnd_round_mode | | exact H].
+  apply generic_format_FLT_bpow; [exact Hp24 | exact Hk].
+Qed.
+
+Lemma mult_bound : forall (x y : binary32) k, (-149 <= k <= 127)%Z -> fin32 x = true -> fin32 y = true ->
+  (Rabs (R32 x * R32 y) <= bpow radix2 k)%R ->
+  fin32 (b32_mult mode_NE x y) = true /\ R32 (b32_mult mode_NE x y) = rnd32 (R32 x * R32 y) /\
+  (Rabs (R32 (b32_mult mode_NE x y)) <= bpow radix2 k)%R.
+Proof.
+  intros x y k Hk Fx Fy Hb. pose proof (b32_mult_correct x y) as H.
+  pose proof (rnd32_abs_le k _ (proj1 Hk) Hb) as Hr.
+  rewrite (bpow_lt_emax k) in H by (try exact Hr; lia). destruct H as [H1 [H2 _]].
+  rewrite Fx, Fy in H2. repeat split; [exact H2 | exact H1 | rewrite H1; exact Hr].
+Qed.
+
+Lemma plus_bound : forall (x y : binary32) k, (-149 <= k <= 127)%Z -> fin32 x = true -> fin32 y = true ->
+  (Rabs (R32 x + R32 y) <= bpow radix2 k)%R ->
+  fin32 (b32_plus mode_NE x y) = true /\ R32 (b32_plus mode_NE x y) = rnd32 (R32 x + R32 y) /\
+  (Rabs (R32 (b32_plus mode_NE x y)) <= bpow radix2 k)%R.
+Proof.
+  intros x y k Hk Fx Fy Hb. pose proof (b32_plus_correct x y Fx Fy) as H.
+  pose proof (rnd32_abs_le k _ (proj1 Hk) Hb) as Hr.
+  rewrite (bpow_lt_emax k) in H by (try exact Hr; lia). destruct H as [H1 [H2 _]].
+  repeat split; [exact H2 | exact H1 | rewrite H1; exact Hr].
+Qed.
+
+Lemma div_bound : forall (x y : binary32) k, (-149 <= k <= 127)%Z -> fin32 x = true -> R32 y <> 0%R ->
+  (Rabs (R32 x / R32 y) <= bpow radix2 k)%R ->
+  fin32 (b32_div mode_NE x y) = true /\ R32 (b32_div mode_NE x y) = rnd32 (R32 x / R32 y) /\
+  (Rabs (R32 (b32_div mode_NE x y)) <= bpow radix2 k)%R.
+Proof.
+  intros x y k Hk Fx Hy Hb. pose proof (b32_div_correct x y Hy) as H.
+  pose proof (rnd32_abs_le k _ (proj1 Hk) Hb) as Hr.
+  rewrite (bpow_lt_emax k) in H by (try exact Hr; lia). destruct H as [H1 [H2 _]].
+  rewrite Fx in H2. repeat split; [exact H2 | exact H1 | rewrite H1; exact Hr].
+Qed.
+
+(* ---- rounding to nearest never halves or doubles a representable-range positive value *)
+Lemma rnd32_half_double : forall t, (bpow radix2 (-149) <= t)%R -> (t / 2 <= rnd32 t <= 2 * t)%R.
+Proof.
+  intros t Ht.
+  assert (Hpos : (0 < t)%R) by (apply Rlt_le_trans with (2 := Ht); apply bpow_gt_0).
+  set (e := (mag radix2 t : Z)).
+  assert (Hmag : (bpow radix2 (e - 1) <= t < bpow radix2 e)%R).
+  { pose proof (bpow_mag_le radix2 t) as H1. pose proof (bpow_mag_gt radix2 t) as H2.
+    rewrite Rabs_pos_eq in H1, H2 by lra. split; [apply H1; lra | exact H2]. }
+  assert (He : (-149 <= e - 1)%Z).
+  { assert (-149 < e)%Z; [|lia]. apply (lt_bpow radix2). lra. }
+  assert (G1 : rnd32 (bpow radix2 (e - 1)) = bpow radix2 (e - 1)).
+  { apply round_generic; [apply valid_rnd_round_mode|]. apply generic_format_FLT_bpow; [exact Hp24|lia]. }
+  assert (G2 : rnd32 (bpow radix2 e) = bpow radix2 e).
+  { apply round_generic; [apply valid_rnd_round_mode|]. apply generic_format_FLT_bpow; [exact Hp24|lia]. }
+  assert (E2 : bpow radix2 e = (2 * bpow radix2 (e - 1))%R).
+  { replace (bpow radix2 e) with (bpow radix2 (1 + (e - 1))) by (f_equal; lia). rewrite bpow_plus. simpl. lra. }
+  split.
+  - apply Rle_trans with (bpow radix2 (e - 1)); [lra|]. rewrite <- G1. apply rnd32_mono. lra.
+  - apply Rle_trans with (bpow radix2 e); [|lra]. rewrite <- G2. apply rnd32_mono. lra.
+Qed.
+
+(* ---- sin_cos_f32 always returns finite components of magnitude at most 1 (as reals) *)
+Lemma signed_interp_R : forall v, signed_interp flocq_prims v ->
+  v < TWO32 /\ fin32 (b32 v) = true /\ (Rabs (R32 (b32 v)) <= 1)%R.
+Proof.
+  intros v [E|[a [E|E]]]; subst v.
+  - split; [reflexivity|]. split; [reflexivity|]. rewrite R32_zero, Rabs_R0. lra.
+  - pose proof (interp_range flocq_prims flocq_prims_wf a) as Hr.
+    destruct (in01_spec _ (sin_qtr_interp_in01 a)) as [F R]. repeat split; try assumption.
+    rewrite Rabs_pos_eq; lra.
+  - pose proof (interp_range flocq_prims flocq_prims_wf a) as Hr.
+    destruct (in01_spec _ (sin_qtr_interp_in01 a)) as [F R].
+    split; [apply fneg_range; exact Hr|]. split.
+    + rewrite fin32_bits by (apply fneg_range; exact Hr). rewrite is_finite_fneg by exact Hr.
+      rewrite <- fin32_bits by exact Hr. exact F.
+    + rewrite R32_fneg by exact Hr. rewrite Rabs_Ropp, Rabs_pos_eq; lra.
+Qed.
+
+Lemma sin_cos_R : forall h,
+  let sc := sin_cos flocq_prims h in
+  (fst sc < TWO32 /\ fin32 (b32 (fst sc)) = true /\ (Rabs (R32 (b32 (fst sc))) <= 1)%R) /\
+  (snd sc < TWO32 /\ fin32 (b32 (snd sc)) = true /\ (Rabs (R32 (b32 (snd sc))) <= 1)%R).
+Proof.
+  intro h. cbv zeta. destruct (is_finite h) eqn:Hf.
+  - destruct (sin_cos_signed_interp_l flocq_prims flocq_prims_wf h Hf) as [S1 S2].
+    split; apply signed_interp_R; assumption.
+  - unfold sin_cos. rewrite Hf. cbn [negb fst snd]. split.
+    + split; [reflexivity|]. split; [reflexivity|]. rewrite R32_zero, Rabs_R0. lra.
+    + split; [reflexivity|]. split; [reflexivity|]. rewrite R32_one, Rabs_pos_eq; lra.
+Qed.
+
+(* ---- the unchanged tail of from_axis_angle is total once every axis component is small relative to the length *)
+Definition EPS2 : N := 730643660.     (* EPSILON * EPSILON as computed in f32 *)
+Lemma EPS2_eq : f_mul EPSILON EPSILON = EPS2.
+Proof. vm_compute. reflexivity. Qed.
+Lemma EPS2_R : (bpow radix2 (-40) <= R32 (b32 EPS2))%R.
+Proof. unfold EPS2. vm_compute (b32 _). unfold B2R, F2R; simpl. lra. Qed.
+
+Lemma is_finite_bits32 : forall f : binary32, is_finite (bits32 f) = fin32 f.
+Proof. intro f. rewrite <- fin32_bits by apply bits32_range. rewrite b32_bits32. reflexivity. Qed.
+
+Lemma tail_finite : forall a1 a2 a3 L angle,
+  fin32 (b32 a1) = true -> fin32 (b32 a2) = true -> fin32 (b32 a3) = true ->
+  L < TWO32 -> fin32 (b32 L) = true ->
+  (f_le L EPS2 = false ->
+     forall a, In a [a1; a2; a3] -> (Rabs (R32 (b32 a)) <= bpow radix2 21 * sqrt (R32 (b32 L)))%R) ->
+  all_finite (q4_list (q_axis_tail flocq_prims (a1, a2, a3) L angle)) = true.
+Proof.
+  intros a1 a2 a3 L angle F1 F2 F3 HL FL Hrel.
+  unfold q_axis_tail. cbn [p_le p_mul p_div flocq_prims]. rewrite EPS2_eq.
+  destruct (f_le L EPS2) eqn:HLE; [reflexivity|].
+  specialize (Hrel eq_refl).
+  (* R L > 2^-40 *)
+  assert (RL : (bpow radix2 (-40) < R32 (b32 L))%R).
+  { apply Rle_lt_trans with (1 := EPS2_R).
+    destruct (Rlt_le_dec (R32 (b32 EPS2)) (R32 (b32 L))) as [H|H]; [exact H|exfalso].
+    rewrite f_le_Ble in HLE.
+    assert (Hc : Ble32 (b32 L) (b32 EPS2) = true) by (apply Ble32_R; [exact FL | reflexivity | exact H]).
+    rewrite Hc in HLE. discriminate. }
+  set (t := sqrt (R32 (b32 L))) in *.
+  assert (Ht : (bpow radix2 (-20) <= t)%R).
+  { unfold t. rewrite <- (sqrt_bpow radix2 (-20)). apply sqrt_le_1_alt. simpl (2 * -20)%Z. lra. }
+  assert (Ht64 : (t <= bpow radix2 64)%R).
+  { unfold t. rewrite <- (sqrt_bpow radix2 64). apply sqrt_le_1_alt. simpl (2 * 64)%Z.
+    pose proof (abs_B2R_lt_emax 24 128 (b32 L)) as H. apply Rabs_lt_inv in H. lra. }
+  assert (Htpos : (0 < t)%R) by (apply Rlt_le_trans with (2 := Ht); apply bpow_gt_0).
+  (* len = sqrt L *)
+  assert (Hlen : det_sqrt flocq_prims L = f_sqrt L).
+  { unfold det_sqrt. cbn [p_le p_sqrt flocq_prims]. rewrite <- fin32_bits, FL by exact HL. cbn [negb orb].
+    destruct (f_le L 0) eqn:E; [|reflexivity]. exfalso. rewrite f_le_Ble in E.
+    apply Ble32_R in E; [|exact FL|reflexivity]. rewrite R32_zero in E.
+    assert (0 < bpow radix2 (-40))%R by apply bpow_gt_0. lra. }
+  rewrite Hlen. unfold f_sqrt.
+  set (LEN := b32_sqrt mode_NE (b32 L)).
+  assert (HLEN : fin32 LEN = true /\ (t / 2 <= R32 LEN <= 2 * t)%R).
+  { unfold LEN, b32_sqrt.
+    match goal with |- context [Bsqrt 24 128 ?h1 ?h2 _ _ _] =>
+      pose proof (Bsqrt_correct 24 128 h1 h2 unop_nan_pl32 mode_NE (b32 L)) as H end.
+    change (SpecFloat.fexp 24 128) with fexp32 in H. destruct H as [H1 [H2 _]]. split.
+    - rewrite H2. assert (0 < bpow radix2 (-40))%R by apply bpow_gt_0.
+      destruct (b32 L) as [s|s|s pl e|s m e He]; try discriminate FL.
+      + simpl in RL. lra.
+      + destruct s; [|reflexivity]. exfalso.
+        assert (R32 (B754_finite 24 128 true m e He) < 0)%R by (apply F2R_lt_0; reflexivity). lra.
+    - rewrite H1. fold t. apply rnd32_half_double.
+      apply Rle_trans with (2 := Ht). apply bpow_le. lia. }
+  destruct HLEN as [FLEN RLEN].
+  assert (B21 : bpow radix2 (-20) = (/ 1048576)%R) by (simpl; lra).
+  assert (B64 : bpow radix2 64 = 18446744073709551616%R) by (simpl; lra).
+  assert (Hlenpos : (0 < R32 LEN)%R) by lra.
+  (* inv = 1 / len *)
+  unfold f_div. rewrite !b32_bits32. fold LEN.
+  set (INV := b32_div mode_NE (b32 ONE) LEN).
+  assert (Hq : (/ (2 * t) <= 1 / R32 LEN <= 2 / t)%R).
+  { unfold Rdiv. rewrite Rmult_1_l. split.
+    - apply Rinv_le; lra.
+    - replace (2 * / t)%R with (/ (t / 2))%R by (field; lra). apply Rinv_le; lra. }
+  assert (HINV : fin32 INV = true /\ (0 <= R32 INV <= 4 / t)%R).
+  { assert (Hd : (Rabs (R32 (b32 ONE) / R32 LEN) <= bpow radix2 21)%R).
+    { rewrite R32_one. rewrite Rabs_pos_eq by (apply Rle_trans with (2 := proj1 Hq); apply Rlt_le, Rinv_0_lt_compat; lra).
+      apply Rle_trans with (1 := proj2 Hq). replace (bpow radix2 21) with (2 / bpow radix2 (-20))%R by (simpl; lra).
+      unfold Rdiv. apply Rmult_le_compat_l; [lra|]. apply Rinv_le; [apply bpow_gt_0 | exact Ht]. }
+    destruct (div_bound (b32 ONE) LEN 21 ltac:(lia) eq_refl ltac:(lra) Hd) as [G1 [G2 _]]. fold INV in G1, G2.
+    split; [exact G1|]. rewrite G2, R32_one.
+    assert (Hlow : (bpow radix2 (-149) <= 1 / R32 LEN)%R).
+    { apply Rle_trans with (2 := proj1 Hq). apply Rle_trans with (/ (2 * bpow radix2 64))%R.
+      - rewrite B64. simpl. lra.
+      - apply Rinv_le; lra. }
+    pose proof (rnd32_half_double _ Hlow) as [Ha Hb]. split.
+    - apply Rle_trans with (2 := Ha). apply Rlt_le. apply Rdiv_lt_0_compat; [|lra].
+      apply Rlt_le_trans with (2 := proj1 Hq). apply Rinv_0_lt_compat. lra.
+    - apply Rle_trans with (1 := Hb). replace (4 / t)%R with (2 * (2 / t))%R by (field; lra). lra. }
+  destruct HINV as [FINV RINV].
+  (* normalised axis components *)
+  assert (Hnorm : forall a, In a [a1; a2; a3] -> fin32 (b32 a) = true ->
+            fin32 (b32_mult mode_NE (b32 a) INV) = true /\
+            (Rabs (R32 (b32_mult mode_NE (b32 a) INV)) <= bpow radix2 23)%R).
+  { intros a Ha Fa. specialize (Hrel a Ha). fold t in Hrel.
+    assert (Hb : (Rabs (R32 (b32 a) * R32 INV) <= bpow radix2 23)%R).
+    { rewrite Rabs_mult. rewrite (Rabs_pos_eq (R32 INV)) by lra.
+      apply Rle_trans with (bpow radix2 21 * t * (4 / t))%R.
+      - apply Rmult_le_compat; try lra. apply Rabs_pos.
+      - replace (bpow radix2 23) with (bpow radix2 21 * 4)%R by (simpl; lra). right. field. lra. }
+    destruct (mult_bound (b32 a) INV 23 ltac:(lia) Fa FINV Hb) as [G1 [_ G3]]. split; assumption. }
+  (* sine and cosine of the half angle *)
+  destruct (sin_cos_R (f_mul angle HALF)) as [[Hs1 [Hs2 Hs3]] [Hc1 [Hc2 Hc3]]].
+  destruct (sin_cos flocq_prims (f_mul angle HALF)) as [s c]. cbn [fst snd] in *.
+  unfold v_scale. cbn [p_mul flocq_prims]. unfold f_mul. rewrite !b32_bits32.
+  assert (Hfin : forall a, In a [a1; a2; a3] -> fin32 (b32 a) = true ->
+            fin32 (b32_mult mode_NE (b32_mult mode_NE (b32 a) INV) (b32 s)) = true).
+  { intros a Ha Fa. destruct (Hnorm a Ha Fa) as [G1 G2].
+    assert (Hb : (Rabs (R32 (b32_mult mode_NE (b32 a) INV) * R32 (b32 s)) <= bpow radix2 23)%R).
+    { rewrite Rabs_mult. rewrite <- (Rmult_1_r (bpow radix2 23)). apply Rmult_le_compat; try apply Rabs_pos; assumption. }
+    apply (mult_bound _ _ 23 ltac:(lia) G1 Hs2 Hb). }
+  unfold all_finite, q4_list. cbn [forallb]. rewrite !is_finite_bits32.
+  rewrite (Hfin a1), (Hfin a2), (Hfin a3) by (simpl; auto).
+  rewrite <- (fin32_bits c Hc1), Hc2. reflexivity.
+Qed.
+
+(* ---- the squared length: a sum of rounded squares *)
+Lemma le_EPS2_false : forall L, fin32 (b32 L) = true -> f_le L EPS2 = false -> (bpow radix2 (-40) < R32 (b32 L))%R.
+Proof.
+  intros L FL HLE. apply Rle_lt_trans with (1 := EPS2_R).
+  destruct (Rlt_le_dec (R32 (b32 EPS2)) (R32 (b32 L))) as [H|H]; [exact H|exfalso].
+  rewrite f_le_Ble in HLE.
+  assert (Hc : Ble32 (b32 L) (b32 EPS2) = true) by (apply Ble32_R; [exact FL | reflexivity | exact H]).
+  rewrite Hc in HLE. discriminate.
+Qed.
+
+Lemma rnd32_nonneg : forall t, (0 <= t)%R -> (0 <= rnd32 t)%R.
+Proof. intros t H. rewrite <- rnd32_0. apply rnd32_mono. exact H. Qed.
+
+Lemma sq_abs_bound : forall x S, (0 <= S)%R -> (x * x <= 4 * S)%R -> (Rabs x <= 2 * sqrt S)%R.
+Proof.
+  intros x S HS H. rewrite <- sqrt_Rsqr_abs. unfold Rsqr.
+  replace (2 * sqrt S)%R with (sqrt (4 * S)).
+  - apply sqrt_le_1_alt. exact H.
+  - rewrite sqrt_mult by lra. replace 4%R with (2 * 2)%R by lra. rewrite sqrt_square by lra. reflexivity.
+Qed.
+
+(* if the rounded sum of rounded squares is finite, every component is at most 2^21 * sqrt of it
+   (provided the sum is above 2^-40) *)
+Lemma dot_rel : forall x y z,
+  fin32 (b32 x) = true -> fin32 (b32 y) = true -> fin32 (b32 z) = true ->
+  let L := v_dot flocq_prims (x, y, z) (x, y, z) in
+  fin32 (b32 L) = true -> (bpow radix2 (-40) < R32 (b32 L))%R ->
+  forall a, In a [x; y; z] -> (Rabs (R32 (b32 a)) <= bpow radix2 21 * sqrt (R32 (b32 L)))%R.
+Proof.
+  intros x y z Fx Fy Fz L. unfold L, v_dot. cbn [p_add p_mul flocq_prims]. unfold f_add, f_mul. rewrite !b32_bits32.
+  set (X := b32_mult mode_NE (b32 x) (b32 x)). set (Y := b32_mult mode_NE (b32 y) (b32 y)).
+  set (Z := b32_mult mode_NE (b32 z) (b32 z)). set (S1 := b32_plus mode_NE X Y). set (S := b32_plus mode_NE S1 Z).
+  intros FS RS.
+  destruct (plus_fin_inv S1 Z FS) as [FS1 FZ]. destruct (plus_fin_inv X Y FS1) as [FX FY].
+  pose proof (mult_fin_R _ _ FX) as RX. pose proof (mult_fin_R _ _ FY) as RY. pose proof (mult_fin_R _ _ FZ) as RZ.
+  fold X in RX. fold Y in RY. fold Z in RZ.
+  pose proof (plus_fin_R X Y FX FY FS1) as RS1. fold S1 in RS1.
+  pose proof (plus_fin_R S1 Z FS1 FZ FS) as RSS. fold S in RSS.
+  assert (PX : (0 <= R32 X)%R) by (rewrite RX; apply rnd32_nonneg; nra).
+  assert (PY : (0 <= R32 Y)%R) by (rewrite RY; apply rnd32_nonneg; nra).
+  assert (PZ : (0 <= R32 Z)%R) by (rewrite RZ; apply rnd32_nonneg; nra).
+  assert (LX : (R32 X <= R32 S1)%R) by (rewrite RS1, <- (rnd32_id X) at 1; apply rnd32_mono; lra).
+  assert (LY : (R32 Y <= R32 S1)%R) by (rewrite RS1, <- (rnd32_id Y) at 1; apply rnd32_mono; lra).
+  assert (PS1 : (0 <= R32 S1)%R) by lra.
+  assert (LS1 : (R32 S1 <= R32 S)%R) by (rewrite RSS, <- (rnd32_id S1) at 1; apply rnd32_mono; lra).
+  assert (LZ : (R32 Z <= R32 S)%R) by (rewrite RSS, <- (rnd32_id Z) at 1; apply rnd32_mono; lra).
+  set (t := sqrt (R32 S)).
+  assert (Ht : (bpow radix2 (-20) <= t)%R).
+  { unfold t. rewrite <- (sqrt_bpow radix2 (-20)). apply sqrt_le_1_alt. simpl (2 * -20)%Z. lra. }
+  assert (B20 : bpow radix2 (-20) = (/ 1048576)%R) by (simpl; lra).
+  assert (B21 : bpow radix2 21 = 2097152%R) by (simpl; lra).
+  assert (PS : (0 <= R32 S)%R) by lra.
+  assert (Hcomp : forall (a : binary32) (A : binary32), R32 A = rnd32 (R32 a * R32 a) -> (R32 A <= R32 S)%R ->
+            (Rabs (R32 a) <= bpow radix2 21 * t)%R).
+  { intros a A RA LA.
+    destruct (Rle_lt_dec (bpow radix2 (-149)) (R32 a * R32 a)) as [Hbig|Hsmall].
+    - pose proof (rnd32_half_double _ Hbig) as [Hh _].
+      apply Rle_trans with (2 * t)%R; [|rewrite B21; nra].
+      apply sq_abs_bound; [exact PS|]. lra.
+    - (* tiny square: |a| < 2^-74 *)
+      assert (Hs : (Rabs (R32 a) <= bpow radix2 (-74))%R).
+      { rewrite <- sqrt_Rsqr_abs. rewrite <- (sqrt_bpow radix2 (-74)). apply sqrt_le_1_alt. unfold Rsqr.
+        apply Rle_trans with (bpow radix2 (-149)); [lra|]. apply bpow_le. lia. }
+      apply Rle_trans with (1 := Hs). apply Rle_trans with (bpow radix2 21 * bpow radix2 (-20))%R.
+      + rewrite <- bpow_plus. apply bpow_le. lia.
+      + apply Rmult_le_compat_l; [apply bpow_ge_0 | exact Ht]. }
+  intros a [E|[E|[E|[]]]]; subst a.
+  - apply (Hcomp (b32 x) X RX). lra.
+  - apply (Hcomp (b32 y) Y RY). lra.
+  - apply (Hcomp (b32 z) Z RZ). lra.
+Qed.
+
+(* ---- a sum of squares of finite numbers is finite or +infinity, never NaN *)
+Definition pos_ext (f : binary32) : Prop := (fin32 f = true /\ (0 <= R32 f)%R) \/ f = B754_infinity 24 128 false.
+
+Lemma B2FF_inf : forall (f : binary32) s, B2FF 24 128 f = F754_infinity s -> f = B754_infinity 24 128 s.
+Proof. intros [s'|s'|s' pl e|s' m e He] s H; try discriminate H. inversion H. reflexivity. Qed.
+
+Lemma square_pos_ext : forall x : binary32, fin32 x = true -> pos_ext (b32_mult mode_NE x x).
+Proof.
+  intros x Fx. unfold pos_ext, b32_mult.
+  match goal with |- context [Bmult 24 128 ?h1 ?h2 _ _ _ _] =>
+    pose proof (Bmult_correct 24 128 h1 h2 binop_nan_pl32 mode_NE x x) as H end.
+  change (SpecFloat.fexp 24 128) with fexp32 in H.
+  destruct (Rlt_bool _ _).
+  - left. destruct H as [H1 [H2 _]]. rewrite Fx in H2. split; [exact H2|]. rewrite H1. apply rnd32_nonneg. nra.
+  - right. rewrite xorb_nilpotent in H. apply B2FF_inf. exact H.
+Qed.
+
+Lemma nonneg_sign : forall f : binary32, fin32 f = true -> (0 <= R32 f)%R -> Bsign 24 128 f = true -> R32 f = 0%R.
+Proof.
+  intros [s|s|s pl e|s m e He] F R S; try discriminate F; try reflexivity.
+  simpl in S. subst s. exfalso.
+  assert (R32 (B754_finite 24 128 true m e He) < 0)%R by (apply F2R_lt_0; reflexivity). lra.
+Qed.
+
+Lemma plus_pos_ext : forall a b : binary32, pos_ext a -> pos_ext b -> pos_ext (b32_plus mode_NE a b).
+Proof.
+  intros a b [[Fa Ra]|Ea] [[Fb Rb]|Eb].
+  - unfold pos_ext, b32_plus.
+    match goal with |- context [Bplus 24 128 ?h1 ?h2 _ _ _ _] =>
+      pose proof (Bplus_correct 24 128 h1 h2 binop_nan_pl32 mode_NE a b Fa Fb) as H end.
+    change (SpecFloat.fexp 24 128) with fexp32 in H.
+    destruct (Rlt_bool (Rabs (rnd32 (R32 a + R32 b))) (bpow radix2 128)) eqn:E.
+    + left. destruct H as [H1 [H2 _]]. split; [exact H2|]. rewrite H1. apply rnd32_nonneg. lra.
+    + right. destruct H as [H1 H2]. apply B2FF_inf.
+      destruct (Bsign 24 128 a) eqn:Sa; [exfalso|exact H1].
+      (* both operands would be -0, whose sum does not overflow *)
+      pose proof (nonneg_sign a Fa Ra Sa) as Za. symmetry in H2. pose proof (nonneg_sign b Fb Rb H2) as Zb.
+      rewrite Za, Zb, Rplus_0_r, rnd32_0, Rabs_R0 in E.
+      rewrite Rlt_bool_true in E by apply bpow_gt_0. discriminate.
+  - subst b. right. destruct a as [s|s|s pl e|s m e He]; try discriminate Fa; reflexivity.
+  - subst a. right. destruct b as [s|s|s pl e|s m e He]; try discriminate Fb; reflexivity.
+  - subst a b. right. reflexivity.
+Qed.
+
+Lemma dot_finite_or_inf : forall x y z,
+  fin32 (b32 x) = true -> fin32 (b32 y) = true -> fin32 (b32 z) = true ->
+  let L := v_dot flocq_prims (x, y, z) (x, y, z) in
+  L < TWO32 /\ (is_inf L = false -> fin32 (b32 L) = true).
+Proof.
+  intros x y z Fx Fy Fz L. unfold L, v_dot. cbn [p_add p_mul flocq_prims]. unfold f_add at 1.
+  split; [apply bits32_range|].
+  unfold f_add, f_mul. rewrite !b32_bits32.
+  set (S := b32_plus mode_NE _ _).
+  assert (HS : pos_ext S).
+  { unfold S. apply plus_pos_ext; [apply plus_pos_ext|]; apply square_pos_ext; assumption. }
+  intro Hinf. destruct HS as [[F _]|E]; [exact F|].
+  exfalso. rewrite E in Hinf. vm_compute in Hinf. discriminate.
+Qed.
+
+(* ---- f32::max on finite operands *)
+Lemma finite_not_nan : forall v, is_finite v = true -> is_nan v = false.
+Proof. intro v. bits. Qed.
+
+Lemma fmax_spec : forall a b, a < TWO32 -> b < TWO32 -> fin32 (b32 a) = true -> fin32 (b32 b) = true ->
+  let m := fmax flocq_prims a b in
+  (m = a \/ m = b) /\ (R32 (b32 a) <= R32 (b32 m))%R /\ (R32 (b32 b) <= R32 (b32 m))%R.
+Proof.
+  intros a b Ha Hb Fa Fb. cbv zeta. unfold fmax. cbn [p_lt flocq_prims].
+  rewrite (finite_not_nan a) by (rewrite <- fin32_bits; assumption).
+  rewrite (finite_not_nan b) by (rewrite <- fin32_bits; assumption).
+  unfold f_lt, b32_compare. rewrite Bcompare_correct by assumption.
+  destruct (Rcompare_spec (R32 (b32 a)) (R32 (b32 b))); split; auto; lra.
+Qed.
+
+(* ---- the repaired branch: squared length overflowed, every component finite *)
+Lemma rescale_overflow : forall x y z, x < TWO32 -> y < TWO32 -> z < TWO32 ->
+  fin32 (b32 x) = true -> fin32 (b32 y) = true -> fin32 (b32 z) = true ->
+  is_inf (v_dot flocq_prims (x, y, z) (x, y, z)) = true ->
+  exists a1 a2 a3 L, q_rescale flocq_prims (x, y, z) = ((a1, a2, a3), L) /\
+    fin32 (b32 a1) = true /\ fin32 (b32 a2) = true /\ fin32 (b32 a3) = true /\ L < TWO32 /\ fin32 (b32 L) = true /\
+    (forall a, In a [a1; a2; a3] -> (Rabs (R32 (b32 a)) <= 1)%R).
+Proof.
+  intros x y z Hx Hy Hz Fx Fy Fz Hinf. unfold q_rescale. rewrite Hinf.
+  pose proof (fabs_range x Hx) as Hax. pose proof (fabs_range y Hy) as Hay. pose proof (fabs_range z Hz) as Haz.
+  assert (Ffabs : forall v, v < TWO32 -> fin32 (b32 v) = true -> fin32 (b32 (fabs v)) = true).
+  { intros v Hv Fv. rewrite fin32_bits by (apply fabs_range; exact Hv). rewrite fin32_bits in Fv by exact Hv.
+    revert Hv Fv. clear. bits. }
+  pose proof (Ffabs x Hx Fx) as Fax. pose proof (Ffabs y Hy Fy) as Fay. pose proof (Ffabs z Hz Fz) as Faz.
+  destruct (fmax_spec (fabs x) (fabs y) Hax Hay Fax Fay) as [Hm1 [Hm1a Hm1b]].
+  set (m1 := fmax flocq_prims (fabs x) (fabs y)) in *.
+  assert (Hm1r : m1 < TWO32) by (destruct Hm1 as [E|E]; rewrite E; assumption).
+  assert (Fm1 : fin32 (b32 m1) = true) by (destruct Hm1 as [E|E]; rewrite E; assumption).
+  destruct (fmax_spec m1 (fabs z) Hm1r Haz Fm1 Faz) as [Hm [Hma Hmb]].
+  set (m := fmax flocq_prims m1 (fabs z)) in *.
+  assert (Hmr : m < TWO32) by (destruct Hm as [E|E]; rewrite E; assumption).
+  assert (Fm : fin32 (b32 m) = true) by (destruct Hm as [E|E]; rewrite E; assumption).
+  rewrite <- (fin32_bits m Hmr), Fm.
+  rewrite !R32_fabs in * by assumption.
+  (* the maximum is not zero, otherwise the squared length would be zero *)
+  assert (Hmpos : (0 < R32 (b32 m))%R).
+  { destruct (Rle_lt_dec (R32 (b32 m)) 0) as [Hle|Hlt]; [exfalso|exact Hlt].
+    assert (Zero : forall v, (Rabs (R32 (b32 v)) <= 0)%R -> R32 (b32 v) = 0%R).
+    { intros v H. destruct (Req_dec (R32 (b32 v)) 0) as [E|E]; [exact E|]. pose proof (Rabs_pos_lt _ E). lra. }
+    assert (Zx := Zero x ltac:(lra)). assert (Zy := Zero y ltac:(lra)). assert (Zz := Zero z ltac:(lra)).
+    destruct (dot_finite_or_inf x y z Fx Fy Fz) as [HLr _].
+    assert (FL : fin32 (b32 (v_dot flocq_prims (x, y, z) (x, y, z))) = true).
+    { unfold v_dot. cbn [p_add p_mul flocq_prims]. unfold f_add, f_mul. rewrite !b32_bits32.
+      assert (B : forall v, R32 (b32 v) = 0%R -> (Rabs (R32 (b32 v) * R32 (b32 v)) <= bpow radix2 0)%R).
+      { intros v E. rewrite E, Rmult_0_r, Rabs_R0. simpl. lra. }
+      destruct (mult_bound (b32 x) (b32 x) 0 ltac:(lia) Fx Fx (B x Zx)) as [G1 [G2 _]].
+      destruct (mult_bound (b32 y) (b32 y) 0 ltac:(lia) Fy Fy (B y Zy)) as [G3 [G4 _]].
+      destruct (mult_bound (b32 z) (b32 z) 0 ltac:(lia) Fz Fz (B z Zz)) as [G5 [G6 _]].
+      rewrite Zx, Rmult_0_r, rnd32_0 in G2. rewrite Zy, Rmult_0_r, rnd32_0 in G4. rewrite Zz, Rmult_0_r, rnd32_0 in G6.
+      assert (B1 : (Rabs (R32 (b32_mult mode_NE (b32 x) (b32 x)) + R32 (b32_mult mode_NE (b32 y) (b32 y))) <= bpow radix2 0)%R).
+      { rewrite G2, G4, Rplus_0_r, Rabs_R0. simpl. lra. }
+      destruct (plus_bound _ _ 0 ltac:(lia) G1 G3 B1) as [G7 [G8 _]].
+      rewrite G2, G4, Rplus_0_r, rnd32_0 in G8.
+      apply (plus_bound _ _ 0 ltac:(lia) G7 G5). rewrite G8, G6, Rplus_0_r, Rabs_R0. simpl. lra. }
+    rewrite fin32_bits in FL by exact HLr. revert Hinf FL. clear. bits. }
+  assert (Hle : forall v, v < TWO32 -> (Rabs (R32 (b32 v)) <= R32 (b32 m))%R ->
+            (Rabs (R32 (b32 v) / R32 (b32 m)) <= bpow radix2 0)%R).
+  { intros v Hv H. unfold Rdiv. rewrite Rabs_mult, Rabs_inv. rewrite (Rabs_pos_eq (R32 (b32 m))) by lra.
+    simpl. apply Rmult_le_reg_r with (R32 (b32 m)); [exact Hmpos|]. rewrite Rmult_assoc, Rinv_l by lra. lra. }
+  assert (Qx := div_bound (b32 x) (b32 m) 0 ltac:(lia) Fx ltac:(lra) (Hle x Hx ltac:(lra))).
+  assert (Qy := div_bound (b32 y) (b32 m) 0 ltac:(lia) Fy ltac:(lra) (Hle y Hy ltac:(lra))).
+  assert (Qz := div_bound (b32 z) (b32 m) 0 ltac:(lia) Fz ltac:(lra) (Hle z Hz ltac:(lra))).
+  destruct Qx as [Qx1 [_ Qx3]]. destruct Qy as [Qy1 [_ Qy3]]. destruct Qz as [Qz1 [_ Qz3]].
+  cbn [p_div flocq_prims].
+  exists (f_div x m), (f_div y m), (f_div z m), (v_dot flocq_prims (f_div x m, f_div y m, f_div z m) (f_div x m, f_div y m, f_div z m)).
+  split; [reflexivity|].
+  unfold f_div at 1 2 3. rewrite !b32_bits32.
+  split; [exact Qx1|]. split; [exact Qy1|]. split; [exact Qz1|].
+  assert (B0 : bpow radix2 0 = 1%R) by reflexivity.
+  split; [unfold v_dot; cbn [p_add flocq_prims]; unfold f_add at 1; apply bits32_range|].
+  split.
+  - unfold v_dot. cbn [p_add p_mul flocq_prims]. unfold f_add, f_mul, f_div. rewrite !b32_bits32.
+    set (A1 := b32_div mode_NE (b32 x) (b32 m)) in *. set (A2 := b32_div mode_NE (b32 y) (b32 m)) in *.
+    set (A3 := b32_div mode_NE (b32 z) (b32 m)) in *.
+    assert (Bsq : forall A : binary32, (Rabs (R32 A) <= bpow radix2 0)%R -> (Rabs (R32 A * R32 A) <= bpow radix2 0)%R).
+    { intros A H. rewrite Rabs_mult. rewrite B0 in *. pose proof (Rabs_pos (R32 A)). nra. }
+    destruct (mult_bound A1 A1 0 ltac:(lia) Qx1 Qx1 (Bsq A1 Qx3)) as [G1 [_ G2]].
+    destruct (mult_bound A2 A2 0 ltac:(lia) Qy1 Qy1 (Bsq A2 Qy3)) as [G3 [_ G4]].
+    destruct (mult_bound A3 A3 0 ltac:(lia) Qz1 Qz1 (Bsq A3 Qz3)) as [G5 [_ G6]].
+    assert (B1 : (Rabs (R32 (b32_mult mode_NE A1 A1) + R32 (b32_mult mode_NE A2 A2)) <= bpow radix2 1)%R).
+    { eapply Rle_trans; [apply Rabs_triang|]. rewrite B0 in *. simpl. lra. }
+    destruct (plus_bound _ _ 1 ltac:(lia) G1 G3 B1) as [G7 [_ G8]].
+    apply (plus_bound _ _ 2 ltac:(lia) G7 G5).
+    eapply Rle_trans; [apply Rabs_triang|]. rewrite B0 in *. simpl in *. lra.
+  - intros a [E|[E|[E|[]]]]; subst a; unfold f_div; rewrite b32_bits32; rewrite B0 in *; assumption.
+Qed.
+
+(* ---- totality of Quat::from_axis_angle (after the overflow repair) on every finite axis and ANY angle *)
+Lemma from_axis_angle_total_l : forall x y z angle, x < TWO32 -> y < TWO32 -> z < TWO32 ->
+  is_finite x = true -> is_finite y = true -> is_finite z = true ->
+  all_finite (q4_list (q_from_axis_angle flocq_prims (x, y, z) angle)) = true.
+Proof.
+  intros x y z angle Hx Hy Hz Bx By Bz.
+  assert (Fx : fin32 (b32 x) = true) by (rewrite fin32_bits; assumption).
+  assert (Fy : fin32 (b32 y) = true) by (rewrite fin32_bits; assumption).
+  assert (Fz : fin32 (b32 z) = true) by (rewrite fin32_bits; assumption).
+  unfold q_from_axis_angle.
+  destruct (is_inf (v_dot flocq_prims (x, y, z) (x, y, z))) eqn:Hinf.
+  - destruct (rescale_overflow x y z Hx Hy Hz Fx Fy Fz Hinf) as (a1 & a2 & a3 & L & E & F1 & F2 & F3 & HL & FL & Hb).
+    rewrite E. apply tail_finite; try assumption.
+    intros HLE a Ha. apply Rle_trans with (1 := Hb a Ha).
+    pose proof (le_EPS2_false L FL HLE) as RL.
+    assert (Ht : (bpow radix2 (-20) <= sqrt (R32 (b32 L)))%R).
+    { rewrite <- (sqrt_bpow radix2 (-20)). apply sqrt_le_1_alt. simpl (2 * -20)%Z. lra. }
+    apply Rle_trans with (bpow radix2 21 * bpow radix2 (-20))%R.
+    + rewrite <- bpow_plus. simpl. lra.
+    + apply Rmult_le_compat_l; [apply bpow_ge_0 | exact Ht].
+  - unfold q_rescale. rewrite Hinf.
+    destruct (dot_finite_or_inf x y z Fx Fy Fz) as [HL HF]. specialize (HF Hinf).
+    apply tail_finite; try assumption.
+    intros HLE a Ha. apply dot_rel; try assumption. apply le_EPS2_false; assumption.
+Qed.
